@@ -26,3 +26,17 @@ Definition check_truncate_clamped (lastEnd sz mmapSz maxSz pageSize : Z) : Z * b
       let lastExpected := Z.min (lastEnd * pageSize) maxSz in
       let e := Z.max expected lastExpected in
       (e, e <? sz).
+
+(* tx.go rollbackChanges: after the allocator was rolled back a bounded file (maxPages > 0) is truncated to the end
+   of the restored state, max(meta end marker, data end marker) pages, if it is longer. Result: the new size. *)
+Definition rollback_truncate (metaEnd dataEnd sz pageSize maxPages : Z) : option Z :=
+  if maxPages =? 0 then None
+  else let e := Z.max metaEnd dataEnd * pageSize in
+       if e <? sz then Some e else None.
+
+(* the variant of seeded change C02j: truncate to the DATA end marker the transaction saw at Begin *)
+Definition rollback_truncate_dataend (dataEnd sz pageSize maxPages : Z) : option Z :=
+  if maxPages =? 0 then None
+  else let e := dataEnd * pageSize in
+       if e <? sz then Some e else None.
+
